@@ -81,7 +81,7 @@ func c13Bytes(tier string) [][]byte {
 
 // ---- part 2: commands x arity x values ------------------------------------------------------------
 
-var c13Values = []string{"", "0", "1", "-1", "2", "2147483648", "4294967296", "9223372036854775807", "-9223372036854775808", "nan", "inf", "abc", "*", "ks", "kl", "kh", "kz", "kx", "nokey"}
+var c13Values = []string{"", "0", "1", "-1", "2", "2147483648", "4294967296", "9223372036854775807", "-9223372036854775808", "-9223372036854775807", "-4611686018427387905", "4611686018427387905", "nan", "inf", "abc", "*", "ks", "kl", "kh", "kz", "kx", "nokey"}
 var c13ValuesSmall = []string{"0", "-1", "9223372036854775807", "abc", "ks", "kl", "kh", "kz"}
 
 type c13Cmd struct {
